@@ -221,7 +221,7 @@ Eval vm_compute in (1%nat, idx (fun c => leqb (fun x y => Pos.eqb (fst x) (fst y
 def run(out, explore=0):
     okp = common.proof_obligations(out, "C03")
     quick = out.tier == "quick"
-    variants = (0, 1, 2, 3, 4, 5, 8, 9) if quick else tuple(range(10))
+    variants = (0, 1, 2, 3, 4, 5, 8, 9, 10, 11) if quick else tuple(range(12))
     pool, recs, items = L.build_items(out, "C03", explore or 50, variants=variants)
     # definitions with the same event type in two branches of one fork before the merge (outside the letter of F, the
     # shape of the corpus' merge_from_similar_paths / multiple_same_event cases); frozen pool harness/pool/R.jsonl
@@ -328,7 +328,7 @@ def run(out, explore=0):
                                                           layouts="F0 array file per job; F1 files listed shuffled + events shuffled inside; "
                                                                   "F2 one event per file with -group-by-job, job by job; F3 the same files interleaved"),
         "evaluations": len(items), "distinct_nontrivial": len({it["rec"]["id"] for it in items if it["rec"]["events"] >= 4}),
-        "rule": "pool slice + the 63 corpus definitions + 40 (thorough: 250) definitions of the frozen pool R (same event type in two branches of a fork) + 60 (thorough: 143) of the frozen pool B (a branch beginning with a nested fork, plus a shared event type) + 40 (thorough: 300) of the frozen pool L (loops on break paths, two loops after one event) x presentation variants (job permutation, event permutation inside jobs, id renaming + time shift, a job "
+        "rule": "pool slice + the 63 corpus definitions + 40 (thorough: 250) definitions of the frozen pool R (same event type in two branches of a fork) + 60 (thorough: 143) of the frozen pool B (a branch beginning with a nested fork, plus a shared event type) + 40 (thorough: 300) of the frozen pool L (loops on break paths, two loops after one event) x presentation variants (job permutation, event permutation inside jobs, id renaming + time shift, job-local event ids (e0, e1, ... in every job), a job "
                 "supplied twice, PYTHONHASHSEED in {0,1,2,3,12345} (thorough: also 777, 4242) in separate processes, distinct uuid streams); each variant "
                 "compared with variant 0 by two-way bounded language inclusion in coqc",
         "trusted_base": common.std_trusted_base(["validators as in C01/C02; presentation variants derived from (definition id, variant)"]),
